@@ -418,7 +418,29 @@ class Interp(object):
         while e.K == "Var" and e.name in self.consts and seen < 10:
             e = self.consts[e.name].expr
             seen += 1
-        return e.K == "Lit" and e.val is False
+        if e.K == "Lit":
+            return e.val is False
+        # a closed expression of literals and operators is folded to its value before the
+        # rewrite (`True == False`, `1 > 2`, `!True`)
+        def closed(x, depth=0):
+            if depth > 6:
+                return False
+            if x.K == "Lit":
+                return True
+            if x.K == "Var":
+                return x.name in self.consts and closed(self.consts[x.name].expr, depth + 1)
+            if x.K == "Bin":
+                return closed(x.l, depth + 1) and closed(x.r, depth + 1)
+            if x.K == "Un":
+                return closed(x.e, depth + 1)
+            return False
+
+        if e.K in ("Bin", "Un") and closed(e):
+            try:
+                return self.ev(e, {}) is False
+            except Exception:
+                return False
+        return False
 
     def e_Un(self, e, env):
         v = self.ev(e.e, env)
